@@ -74,11 +74,11 @@ def drive(tier):
         d = gen.gen_tx(r, nin=2, nout=1, witness="none")
         d["wit"] = [[gen.rbytes(r, n)], []]
         descs.append(d)
-        if n <= 256 or tier == "thorough":
-            d = gen.gen_tx(r, nin=1, nout=0, witness="none")
+        if n <= 256:              # (65,536 items / inputs / outputs cost TLC hours - the reference parser appends element by element;
+            d = gen.gen_tx(r, nin=1, nout=0, witness="none")     #  the count prefix is the same CompactSize code as the length prefix)
             d["wit"] = [[b"\x01"] * n]
             descs.append(d)
-            if n <= 256:          # (65,536 inputs/outputs would need GBs of trace; the count prefix is the same CompactSize code)
+            if True:
                 d = gen.gen_tx(r, nin=max(n, 1), nout=1, witness="none", lens=[0, 1])
                 descs.append(d)
                 d = gen.gen_tx(r, nin=1, nout=n, witness="none", lens=[0, 1])
